@@ -8,6 +8,7 @@ shape (any length); finite character tables are closed by `decide` and lifted by
 import BytomModel.Lemmas.Bech32
 import BytomModel.Lemmas.ConvertBits
 import BytomModel.Lemmas.Address
+import BytomModel.Lemmas.Mnemonic
 
 namespace BytomModel.Props.C29
 open BytomModel.Bech32 BytomModel.Lemmas.Bech32 BytomModel.Lemmas.ConvertBits BytomModel.Lemmas.Address
@@ -366,6 +367,82 @@ theorem address_substitution_rejected (kind : AddrKind) (hrp prog : Bytes) (hh :
         exact ⟨ch, by simp at hch; simp [hch], h⟩
     exact subst_data hrp (vals.take k) (vals.drop (k + 1)) vals[k] c hlowc ⟨ch, hch, hl1⟩
       (by rw [← d1]; exact hvals) (by rw [← d1]; exact hver) hx
+
+/-! ### BIP-39 entropy ↔ word indices -/
+
+section mnemonic
+open BytomModel.Mnemonic BytomModel.Lemmas.Mnemonic
+
+/-- the arithmetic core, for one entropy length `L` with `cs` checksum bits and `n` words -/
+theorem mnemonic_core (ck : Mnemonic.Bytes → Nat) (e : Mnemonic.Bytes) (L cs n : Nat)
+    (hb : ∀ b ∈ e, b < 256) (hck : ck e < 256)
+    (hL : e.length = L) (hcs : L / 4 = cs) (hcs8 : cs ≤ 8)
+    (hn : (L * 8 + L * 8 / 32) / 11 = n) (hvalid : ¬ (L * 8 % 32 ≠ 0 ∨ L * 8 < 128 ∨ L * 8 > 256))
+    (hpow : 2048 ^ n = 256 ^ L * 2 ^ cs) (hmask : checksumMask n = 2 ^ cs - 1)
+    (hshift : (if n ≠ 24 then ck e / checksumShift n else ck e) = ck e / 2 ^ (8 - cs))
+    (hn3 : ¬ (n % 3 ≠ 0 ∨ n < 12 ∨ n > 24)) (hn4 : n / 3 * 4 = L) :
+    ∃ idx, newMnemonicIdx ck e = .ok idx ∧ idx.length = n ∧ (∀ i ∈ idx, i < 2048) ∧
+      entropyFromIdx ck (idx.map some) = .ok e := by
+  have hD := addChecksumInt_eq ck e hck (by rw [hL, hcs]; exact hcs8)
+  rw [hL, hcs] at hD
+  have hE := fromBytes_lt e hb
+  rw [hL] at hE
+  have hc : ck e / 2 ^ (8 - cs) < 2 ^ cs := by
+    apply Nat.div_lt_of_lt_mul
+    rw [← Nat.pow_add]
+    have : 8 - cs + cs = 8 := by omega
+    rw [this]; exact hck
+  have h2pos : 0 < 2 ^ cs := Nat.two_pow_pos cs
+  generalize hcdef : ck e / 2 ^ (8 - cs) = c at hD hc hshift
+  generalize hEdef : Mnemonic.fromBytes e = E at hD hE
+  have hDlt : addChecksumInt ck e < 2048 ^ n := by
+    rw [hD, hpow]
+    have : (E + 1) * 2 ^ cs ≤ 256 ^ L * 2 ^ cs := Nat.mul_le_mul_right _ hE
+    nlinarith
+  refine ⟨digits2048 n (addChecksumInt ck e), ?_, digits2048_length _ _, digits2048_lt _ _, ?_⟩
+  · unfold newMnemonicIdx
+    simp only [hL, hn, hvalid, if_false]
+  · unfold entropyFromIdx
+    simp only [List.length_map, digits2048_length, hn3, if_false]
+    rw [go_digits, Nat.zero_mul, Nat.zero_add, Nat.mod_eq_of_lt hDlt]
+    simp only [hmask]
+    have hm1 : 2 ^ cs - 1 + 1 = 2 ^ cs := by omega
+    rw [hm1, Nat.and_two_pow_sub_one_eq_mod, hD]
+    have e1 : (E * 2 ^ cs + c) % 2 ^ cs = c := by
+      rw [Nat.mul_comm, Nat.mul_add_mod]; exact Nat.mod_eq_of_lt hc
+    have e2 : (E * 2 ^ cs + c) / 2 ^ cs = E := by
+      rw [Nat.mul_comm, Nat.mul_add_div h2pos, Nat.div_eq_of_lt hc]; rfl
+    rw [e1, e2, hn4, pad_minBytes L E hE]
+    have hback : toBytesN L E = e := by rw [← hEdef, ← hL]; exact toBytesN_fromBytes e hb
+    rw [hback, hshift]
+    simp
+
+/-- **Mnemonic round trip**: for every entropy of 128, 160, 192, 224 or 256 bits,
+    `EntropyFromMnemonic (NewMnemonic entropy) = entropy` at the level of word indices (all of
+    which are below 2048), for any checksum function with byte values. -/
+theorem mnemonic_roundtrip (ck : Mnemonic.Bytes → Nat) (e : Mnemonic.Bytes) (hb : ∀ b ∈ e, b < 256)
+    (hck : ck e < 256)
+    (hl : e.length = 16 ∨ e.length = 20 ∨ e.length = 24 ∨ e.length = 28 ∨ e.length = 32) :
+    ∃ idx, newMnemonicIdx ck e = .ok idx ∧ idx.length = (e.length * 8 + e.length / 4) / 11 ∧
+      (∀ i ∈ idx, i < 2048) ∧ entropyFromIdx ck (idx.map some) = .ok e := by
+  rcases hl with h | h | h | h | h
+  · obtain ⟨idx, h1, h2, h3, h4⟩ := mnemonic_core ck e 16 4 12 hb hck h (by decide) (by decide) (by decide)
+      (by decide) (by norm_num) (by decide) (by simp [checksumShift]) (by decide) (by decide)
+    exact ⟨idx, h1, by rw [h2, h], h3, h4⟩
+  · obtain ⟨idx, h1, h2, h3, h4⟩ := mnemonic_core ck e 20 5 15 hb hck h (by decide) (by decide) (by decide)
+      (by decide) (by norm_num) (by decide) (by simp [checksumShift]) (by decide) (by decide)
+    exact ⟨idx, h1, by rw [h2, h], h3, h4⟩
+  · obtain ⟨idx, h1, h2, h3, h4⟩ := mnemonic_core ck e 24 6 18 hb hck h (by decide) (by decide) (by decide)
+      (by decide) (by norm_num) (by decide) (by simp [checksumShift]) (by decide) (by decide)
+    exact ⟨idx, h1, by rw [h2, h], h3, h4⟩
+  · obtain ⟨idx, h1, h2, h3, h4⟩ := mnemonic_core ck e 28 7 21 hb hck h (by decide) (by decide) (by decide)
+      (by decide) (by norm_num) (by decide) (by simp [checksumShift]) (by decide) (by decide)
+    exact ⟨idx, h1, by rw [h2, h], h3, h4⟩
+  · obtain ⟨idx, h1, h2, h3, h4⟩ := mnemonic_core ck e 32 8 24 hb hck h (by decide) (by decide) (by decide)
+      (by decide) (by norm_num) (by decide) (by simp) (by decide) (by decide)
+    exact ⟨idx, h1, by rw [h2, h], h3, h4⟩
+
+end mnemonic
 
 /-! ### satisfiability of the hypotheses; tests on literals -/
 
